@@ -86,9 +86,13 @@ structure Cfg where
   /-- does the `except` around `readlink(file)` that sets `hit_enoent` catch ENOENT / ESRCH? -/
   linkGoneEnoent : Bool
   linkGoneEsrch : Bool
-  /-- same for the `except` around the fdinfo read -/
+  /-- is the `open_binary(fdinfo)` call inside a `try` whose handler sets `hit_enoent` for ENOENT / ESRCH? -/
   infoGoneEnoent : Bool
   infoGoneEsrch : Bool
+  /-- same question for the two `f.readline()` statements (a descriptor closed after its fdinfo
+      file was opened makes the *read* fail) -/
+  infoReadGoneEnoent : Bool
+  infoReadGoneEsrch : Bool
   /-- `if hit_enoent: self._raise_if_not_alive()` is present after the loop -/
   finalAliveCheck : Bool
   /-- the separator of `line.split(b': ')` in `io_counters` -/
@@ -145,11 +149,19 @@ inductive Res (ε α : Type)
   | err (e : ε)
   deriving Repr
 
+/-- what `/proc/<pid>/fdinfo/<name>` answers: the `open` fails, or it opens and every read
+    succeeds, or it opens and the first / second `readline()` fails (the descriptor was closed
+    after the open: the kernel fails the read with ENOENT, ESRCH when the task is gone) -/
+inductive InfoRes
+  | openErr (e : GoneErr)
+  | ok (content : Bytes)
+  | readErr (content : Bytes) (second : Bool) (e : GoneErr)
+
 /-- one name returned by `os.listdir("/proc/<pid>/fd")` with what the later accesses answer -/
 structure Entry where
   name : Bytes
   link : Res LinkErr Bytes      -- `os.readlink("/proc/<pid>/fd/<name>")`
-  info : Res GoneErr Bytes      -- content of `/proc/<pid>/fdinfo/<name>` or the errno of `open`
+  info : InfoRes
 
 /-- the file system `isfile_strict` / `path_exists_strict` look at (no EACCES: see notes) -/
 structure FS where
@@ -180,21 +192,45 @@ def pyReadlink (cfg : Cfg) (fs : FS) (raw : Bytes) : Bytes :=
 
 /-! ### fdinfo -/
 
-/-- the two `int(f.readline().split()[i])` statements; a missing line reads as `b''` -/
+/-- `int(line.split()[idx], base)` -/
+def intField (idx base : Nat) (line : Bytes) : Except Exc Nat :=
+  match (splitWs line)[idx]? with
+  | none => .error .indexError
+  | some t =>
+    match pyInt base t with
+    | none => .error .valueError
+    | some v => .ok v
+
+/-- the two `int(f.readline().split()[i])` statements on a file whose reads all succeed;
+    a missing line reads as `b''` -/
 def parseFdinfo (cfg : Cfg) (content : Bytes) : Except Exc (Nat × Nat) :=
   let lines := splitOn 10 content
-  match (splitWs (lines.getD 0 []))[cfg.posIdx]? with
-  | none => .error .indexError
-  | some t1 =>
-    match pyInt cfg.posBase t1 with
-    | none => .error .valueError
-    | some pos =>
-      match (splitWs (lines.getD 1 []))[cfg.flagsIdx]? with
-      | none => .error .indexError
-      | some t2 =>
-        match pyInt cfg.flagsBase t2 with
-        | none => .error .valueError
-        | some flags => .ok (pos, flags)
+  match intField cfg.posIdx cfg.posBase (lines.getD 0 []) with
+  | .error x => .error x
+  | .ok pos =>
+    match intField cfg.flagsIdx cfg.flagsBase (lines.getD 1 []) with
+    | .error x => .error x
+    | .ok flags => .ok (pos, flags)
+
+/-- outcome of opening and reading one fdinfo file -/
+inductive InfoOut
+  | ok (pos flags : Nat)
+  | goneAtOpen (e : GoneErr)
+  | goneAtRead (e : GoneErr)
+  | raise (x : Exc)
+
+/-- open, first readline + parse, second readline + parse, in the order the code performs them -/
+def readFdinfo (cfg : Cfg) : InfoRes → InfoOut
+  | .openErr e => .goneAtOpen e
+  | .ok content =>
+    match parseFdinfo cfg content with
+    | .error x => .raise x
+    | .ok (pos, flags) => .ok pos flags
+  | .readErr _ false e => .goneAtRead e
+  | .readErr content true e =>
+    match intField cfg.posIdx cfg.posBase ((splitOn 10 content).getD 0 []) with
+    | .error x => .raise x
+    | .ok _ => .goneAtRead e
 
 /-! ### the loop body of `open_files` -/
 
@@ -214,24 +250,27 @@ def infoErrStep (cfg : Cfg) : GoneErr → Step
   | .enoent => if cfg.infoGoneEnoent then .hit else .raise .fileNotFound
   | .esrch => if cfg.infoGoneEsrch then .hit else .raise .processLookup
 
+def infoReadErrStep (cfg : Cfg) : GoneErr → Step
+  | .enoent => if cfg.infoReadGoneEnoent then .hit else .raise .fileNotFound
+  | .esrch => if cfg.infoReadGoneEsrch then .hit else .raise .processLookup
+
 def scanOne (cfg : Cfg) (fs : FS) (e : Entry) : Step :=
   match e.link with
   | .err le => linkErrStep cfg le
   | .ok raw =>
     let path := pyReadlink cfg fs raw
     if startsWith cfg.absPrefix path && fs.isFile path then
-      match e.info with
-      | .err ie => infoErrStep cfg ie
-      | .ok content =>
-        match parseFdinfo cfg content with
-        | .error x => .raise x
-        | .ok (pos, flags) =>
-          match fileFlagsToMode cfg flags with
-          | none => .raise .keyError
-          | some mode =>
-            match pyInt 10 e.name with
-            | none => .raise .valueError
-            | some fd => .item ⟨path, fd, pos, mode, flags⟩
+      match readFdinfo cfg e.info with
+      | .goneAtOpen ie => infoErrStep cfg ie
+      | .goneAtRead ie => infoReadErrStep cfg ie
+      | .raise x => .raise x
+      | .ok pos flags =>
+        match fileFlagsToMode cfg flags with
+        | none => .raise .keyError
+        | some mode =>
+          match pyInt 10 e.name with
+          | none => .raise .valueError
+          | some fd => .item ⟨path, fd, pos, mode, flags⟩
     else .skip
 
 /-- the `for fd in files:` loop: the list built and `hit_enoent`, or the first exception -/
